@@ -23,7 +23,9 @@ class Logger(CallTraceLogger):
         self.flushed = 0
 
     def log(self, trace):
-        self.R.logs.append((self.R.stack[-1] if self.R.stack else None, trace))
+        # a streaming logger: what it needs of the trace is copied, the function object itself is not retained
+        lite = CallTrace(S.FuncInfo(trace.func), dict(trace.arg_types), trace.return_type, trace.yield_type)
+        self.R.logs.append((self.R.stack[-1] if self.R.stack else None, lite))
 
     def flush(self):
         self.flushed += 1
